@@ -94,9 +94,9 @@ static Str textWithSpecials(Rng& r, const Features& f, const char* base) {
         for (int i = 0; i < n; i++) { s += bits[r.below(17)]; s += (char)('a' + r.below(26)); }
     }
     if (f.special_tc && r.chance(3, 4)) {
-        static const char* const bits[] = { "'", "|", "[", "]", "\n", "\r", "|n", "||", "']", "\r\n", "[]", "|'", "'|", "\xc3\xa9", "\xe2\x82\xac" };
+        static const char* const bits[] = { "'", "|", "[", "]", "\n", "\r", "|n", "||", "']", "\r\n", "[]", "|'", "'|", "\xc3\xa9", "\xe2\x82\xac", "\\", "C:\\src\\[t]", "^", "Z[\\]^_" };      // the last four: the characters around the brackets in the code table
         int n = (int)r.range(1, 4);
-        for (int i = 0; i < n; i++) { s += bits[r.below(15)]; s += (char)('a' + r.below(26)); }
+        for (int i = 0; i < n; i++) { s += bits[r.below(19)]; s += (char)('a' + r.below(26)); }
     }
     if ((f.special_tc || f.special_xml) && r.chance(1, 10)) { size_t n = (size_t)r.range(60, 300); for (size_t i = 0; i < n; i++) s += (char)('a' + (i * 5 + n) % 26); if (r.chance(1, 2)) s += "|'"; }
     if ((f.special_tc || f.special_xml) && r.chance(1, 8)) s += r.chance(1, 2) ? "\n" : (r.chance(1, 2) ? "\r\n" : "\n\n");      // a text that ends in line breaks
